@@ -364,6 +364,21 @@ def clause4_effective(ctx, P, cg):
            "when the credential file cannot be written, change_password() answers with an error but keeps the new hash in the in-memory "
            "database: the new password authenticates at once, and the next successful change of any account writes it to disk",
            witness=kept.witness() if kept else None)
+    # ... by putting back a WHOLE copy of the old member: cJSON_ReplaceItemViaPointer() does not name the replacement, so only a
+    # duplicate of the member itself (which carries the key "password") restores the account; a fresh string item has no key
+    badrep = None
+    nrep = 0
+    for i in cp.all_insts():
+        if i.op == "call" and i.callee and P.srcname_of(i.callee) == "cJSON_ReplaceItemViaPointer" and len(i.a) > 2:
+            nrep += 1
+            lv, _ = Q.leaves(P, cp, i.a[2], through_loads=False)
+            if not lv or not all(Q.is_call_to(l, "cJSON_Duplicate") and l[2][0] == P.term(cp, i.a[1]) for l in lv):
+                badrep = i
+    if nrep:
+        ctx.ob("C20.4 R-COMMIT", cp, "what-is-put-back-is-a-copy-of-the-old-member", badrep is None,
+               "change_password() puts back %s at %s, which is not a duplicate of the replaced member: the restored item has no key, the "
+               "account loses its \"password\" member - nobody can log in, and the next write stores the hash under an empty name" %
+               (fmt_term(P.term(cp, badrep.a[2]))[:60] if badrep else "?", badrep.loc if badrep else "?"))
     ctx.ob("C20.4 R-RET", cp, "install-failure-fails-the-update", swallowed is None and nsucc > 0,
            "success is answered on a path on which the step that installs the new hash may have failed unnoticed (allocation failure in "
            "cJSON_CreateString / cJSON_ReplaceItemInObject / cJSON_SetValuestring): the caller is told the password changed, the old one "
@@ -503,6 +518,34 @@ def clause10_commit_and_salt(ctx, P, cg):
             (bads[0].srcname, bads[2], bads[3], bads[1].loc)) if bads else "%d table look-up(s) stay inside the characters" % ns)
 
 
+def clause11_write_progress(ctx, P):
+    """the loop that writes the new credential file advances by what write() reported only when write() reported progress: every
+    arithmetic use of write()'s result (pointer advance, remaining count) is dominated by the test 'result >= 0' - an interrupted
+    write (-1, EINTR) that falls through to the advance moves the pointer BACK one byte and the file gets a duplicated byte"""
+    n = 0
+    bad = None
+    for f in P.own_functions():
+        if f.base != "auth_file.c":
+            continue
+        for c in f.calls("write"):
+            for i in f.all_insts():
+                if i.op in ("add", "sub", "getelementptr") and c.id in [a for a in i.a if isinstance(a, int)] + \
+                        [st[1] for st in (getattr(i, "path", None) or []) if len(st) > 1 and isinstance(st[1], int)]:
+                    n += 1
+
+                    def nonneg(atom, pol, c=c):
+                        if atom[0] != "cmp" or not (atom[2][0] == "call" and atom[2][3] == c.id) or atom[3] != ("const", 0):
+                            return False
+                        eff = atom[1] if pol else Q.negate_pred(atom[1])
+                        return eff in ("sge", "sgt")
+                    if not Q.must_pass(P, f, i.block, nonneg) and bad is None:
+                        bad = (f, i)
+    ctx.ob("C20.3 R-GATE", P.fn("auth_file.c:write_user_data"), "file-write-advances-only-on-progress", bad is None and n >= 2,
+           ("%s() uses the result of write() in its bookkeeping at %s on a path that has not found it >= 0: after an interrupted write the "
+            "data pointer moves backwards and the count grows - the file that is then renamed into place holds a byte twice" %
+            (bad[0].srcname, bad[1].loc)) if bad else "%d uses of write()'s result, all behind the >= 0 test" % n)
+
+
 RESOLVERS = ("realpath", "canonicalize_file_name")
 
 
@@ -617,6 +660,7 @@ def run(ctx):
         clause8_account_lookups(ctx, P)
         clause9_mapped_file(ctx, P)
         clause10_commit_and_salt(ctx, P, cg)
+        clause11_write_progress(ctx, P)
         clause2_atomic(ctx, P, cg)
         clause3_write(ctx, P, cg)
         clause4_effective(ctx, P, cg)
